@@ -132,14 +132,20 @@ package client
 // die: runs cleanup and the error callback at most once (sync.Once); the
 // error it returns is never nil, so every handler path through die ends the
 // processor.
+// cleaned[c]: the once-only cleanup of die (state disconnected, connection
+// closed if asked, futures cancelled, callback told) has run for c - when
+// die returns, this call or an earlier one has completed it (sync.Once).
+//@ ghost cleaned map[ref]bool
 //@ func (c *Client) die(err error, closeConn bool) (res error)
 //@   requires [client] client_inv(c)
 //@   requires [err] err != nil
 //@   ensures [err] res != nil
+//@   ensures [cleaned] cleaned[c]
+//@   ghostset cleaned[c] := true
 //@   ensures [no-send] nsentall == old(nsentall) && nsent == old(nsent)
 //@   ensures [started] tstarted == old(tstarted)
 //@   ensures [unlocked] held == old(held)
-//@   modifies c.state, nclose, saved, nreset, c.futureStore.store, any(future.Future.result), any(future.Future.done), fclosed, held, ncallback, cbmsg, cbfail, storedobj
+//@   modifies c.state, nclose, saved, nreset, c.futureStore.store, any(future.Future.result), any(future.Future.done), fclosed, held, ncallback, cbmsg, cbfail, storedobj, cleaned[c]
 //@ func (c *Client) die$1()
 //@   requires [captured] *c != nil && client_inv(*c)
 //@   ensures [err] old(*err) != nil ==> *err != nil
@@ -153,6 +159,7 @@ package client
 //@   requires [pkt] publish != nil && publish.Message.QOS <= 2 && (publish.Message.QOS > 0 ==> publish.ID != 0)
 //@   requires [unstored] !storedobj[publish]
 //@   requires [no-reject-yet] !cbfail
+//@   ensures [error-means-ended] err != nil ==> cleaned[c]
 //@   ensures [qos1-ack-after-callback] err == nil && publish.Message.QOS == 1 ==> nsent[4] == old(nsent[4]) + 1 && lastid[4] == publish.ID && !cbfail && (c.Callback != nil ==> ncallback == old(ncallback) + 1 && cbmsg == publish.Message)
 //@   ensures [qos2-recorded-then-rec] err == nil && publish.Message.QOS == 2 ==> saved[0][publish.ID] == 3 && nsent[5] == old(nsent[5]) + 1 && lastid[5] == publish.ID && !cbfail
 //@   ensures [qos2-default-no-callback] err == nil && publish.Message.QOS == 2 && !c.earlyCallback ==> ncallback == old(ncallback)
@@ -165,6 +172,7 @@ package client
 //@   requires [client] client_inv(c)
 //@   requires [incoming] incoming_ok()
 //@   requires [no-reject-yet] !cbfail
+//@   ensures [error-means-ended] err != nil ==> cleaned[c]
 //@   ensures [pubrel-always-comp] err == nil ==> nsent[7] == old(nsent[7]) + 1 && lastid[7] == id
 //@   ensures [delivered-once] err == nil && old(saved[0][id]) == 3 && c.Callback != nil && !c.earlyCallback ==> ncallback == old(ncallback) + 1 && !cbfail
 //@   ensures [no-redelivery] err == nil && old(saved[0][id]) != 3 ==> ncallback == old(ncallback)
@@ -174,12 +182,14 @@ package client
 //
 //@ func (c *Client) processPubrec(id packet.ID) (err error)
 //@   requires [client] client_inv(c)
+//@   ensures [error-means-ended] err != nil ==> cleaned[c]
 //@   ensures [pubrel] err == nil ==> saved[1][id] == 6 && nsent[6] == old(nsent[6]) + 1 && lastid[6] == id
 //@   ensures [inv] err == nil ==> client_inv(c) && (old(incoming_ok()) ==> incoming_ok()) && (old(outgoing_ok()) ==> outgoing_ok()) && (cbfail <==> old(cbfail)) && c.connectFuture == old(c.connectFuture)
 //@   modifies everything
 //
 //@ func (c *Client) processPubackAndPubcomp(id packet.ID) (err error)
 //@   requires [client] client_inv(c)
+//@   ensures [error-means-ended] err != nil ==> cleaned[c]
 //@   ensures [released] err == nil ==> saved[1][id] == 0
 //@   ensures [inv] err == nil ==> client_inv(c) && (old(incoming_ok()) ==> incoming_ok()) && (old(outgoing_ok()) ==> outgoing_ok()) && (cbfail <==> old(cbfail)) && c.connectFuture == old(c.connectFuture)
 //@   modifies everything
@@ -193,11 +203,13 @@ package client
 // nothing.
 //@ func (c *Client) processPubackAndPubcomp(id packet.ID) (err error)
 //@   requires [client] client_inv(c)
+//@   ensures [error-means-ended] err != nil ==> cleaned[c]
 //@   ensures [released] err == nil ==> saved[1][id] == 0
 //@   ensures [completed] err == nil && old(has(c.futureStore.store, id)) ==> old(c.futureStore.store[id]).done && !has(c.futureStore.store, id)
 //@   modifies everything
 //@ func (c *Client) processSuback(suback *packet.Suback) (err error)
 //@   requires [client] client_inv(c) && suback != nil
+//@   ensures [error-means-ended] err != nil ==> cleaned[c]
 //@   ensures [released] err == nil ==> saved[1][suback.ID] == 0
 //@   ensures [completed] err == nil && old(has(c.futureStore.store, suback.ID)) ==> old(c.futureStore.store[suback.ID]).done && !has(c.futureStore.store, suback.ID)
 //@   ensures [inv] err == nil ==> client_inv(c) && (old(incoming_ok()) ==> incoming_ok()) && (old(outgoing_ok()) ==> outgoing_ok()) && (cbfail <==> old(cbfail)) && c.connectFuture == old(c.connectFuture)
@@ -205,6 +217,7 @@ package client
 //@   loop 1 invariant [range] 0 <= rangeindex + 1 && rangeindex + 1 <= len(suback.ReturnCodes)
 //@ func (c *Client) processUnsuback(unsuback *packet.Unsuback) (err error)
 //@   requires [client] client_inv(c) && unsuback != nil
+//@   ensures [error-means-ended] err != nil ==> cleaned[c]
 //@   ensures [released] err == nil ==> saved[1][unsuback.ID] == 0
 //@   ensures [completed] err == nil && old(has(c.futureStore.store, unsuback.ID)) ==> old(c.futureStore.store[unsuback.ID]).done && !has(c.futureStore.store, unsuback.ID)
 //@   ensures [inv] err == nil ==> client_inv(c) && (old(incoming_ok()) ==> incoming_ok()) && (old(outgoing_ok()) ==> outgoing_ok()) && (cbfail <==> old(cbfail)) && c.connectFuture == old(c.connectFuture)
@@ -215,6 +228,7 @@ package client
 //@ func (c *Client) processConnack(connack *packet.Connack) (err error)
 //@   requires [client] client_inv(c) && connack != nil && c.connectFuture != nil
 //@   requires [outgoing] outgoing_ok()
+//@   ensures [error-means-ended] err != nil ==> cleaned[c]
 //@   ensures [ignored] old(c.state) != 1 ==> err == nil && nsentall == old(nsentall) && c.state == old(c.state)
 //@   ensures [resend-all] err == nil && old(c.state) == 1 ==> c.state == 3 && c.connectFuture.done && nsentall == old(nsentall) + nall && nnodup == old(nnodup) && saved == old(saved)
 //@   ensures [inv] err == nil ==> client_inv(c) && (old(incoming_ok()) ==> incoming_ok()) && (old(outgoing_ok()) ==> outgoing_ok()) && (cbfail <==> old(cbfail)) && c.connectFuture == old(c.connectFuture)
